@@ -135,9 +135,24 @@ def literal(c, val):
     return c2, v
 
 
+def negate_term(e):
+    """the negation of a test term, in the form a test is recorded in: `not` peeled, == / is / in flipped in place; orderings are wrapped
+    (a < b and not a >= b differ for NaN elements)"""
+    c0, neg = _strip_not(e)
+    if neg:
+        return c0
+    if c0[0] == "cmp" and c0[1] in POS_NEG:
+        return ("cmp", POS_NEG[c0[1]], c0[2], c0[3])
+    return ("unop", "not", c0)
+
+
 def _impure(c):
     from .terms import callee
     return any(x[0] == "call" and callee(x) in IMPURE_IN_COND for x in walk(c))
+
+
+NUMPY_RETURNS_NONE = {"numpy.put", "numpy.place", "numpy.copyto", "numpy.putmask", "numpy.fill_diagonal", "numpy.put_along_axis", "numpy.save", "numpy.savez",
+                      "numpy.savez_compressed", "numpy.savetxt", "numpy.set_printoptions", "numpy.info", "numpy.testing.assert_allclose", "numpy.add.at", "numpy.subtract.at"}
 
 
 def _static_truth(c):
@@ -151,6 +166,8 @@ def _static_truth(c):
         for x, y in ((a, b), (b, a)):
             if y == NONE and x[0] in ("tuple", "list", "dict", "set", "comp", "lambda", "fmt", "binop"):
                 return False
+            if y == NONE and x[0] == "call" and x[1][0] == "glob" and x[1][1].startswith("numpy.") and x[1][1] not in NUMPY_RETURNS_NONE and not x[1][1].startswith("numpy.random."):
+                return False          # a numpy function that computes a value never returns None
     if c[0] == "cmp" and c[1] == "==" and is_const(c[2]) and is_const(c[3]):
         return c[2][1] == c[3][1]
     if c[0] == "cmp" and c[1] in ("<", "<=", ">", ">=") and all(is_const(x) and isinstance(x[1], (int, float)) and not isinstance(x[1], bool) for x in (c[2], c[3])):
@@ -421,6 +438,10 @@ class Evaluator:
                 return ("tuple", tuple(("tuple", (const(i), e)) for i, e in enumerate(xs[0][1])))
             if q == "builtins.zip" and xs and all(plain_seq(a) for a in xs):
                 return ("tuple", tuple(("tuple", es) for es in zip(*[a[1] for a in xs])))
+            if q == "builtins.zip" and len(xs) >= 2 and all(a[0] == "comp" and a[1] in ("list", "gen", "tuple") and not a[5] and canon(a[3]) == canon(xs[0][3]) for a in xs) and _pure_seq(xs[0][3]):
+                # zip([f(i) for i in S], [g(i) for i in S]) is ((f(i), g(i)) for i in S): comprehensions over one and the same sequence advance in step
+                s0, l0 = xs[0][3], xs[0][4]
+                return ("comp", "gen", ("tuple", tuple(subst(a[2], {("elem", a[3], a[4]): ("elem", s0, l0)}) for a in xs)), s0, l0, ())
         if q == "builtins.len" and len(args) == 1 and plain_seq(args[0]) and not kws:
             return const(len(args[0][1]))
         if q == "builtins.range" and args and all(is_int(a) for a in args) and not kws:
@@ -455,6 +476,11 @@ class Evaluator:
                 half = ("binop", "//", ("call", ("glob", "builtins.len"), (src[2][0],), (), 0), const(2))
                 if n0 == const(len(x[1]) // 2) or canon(n0) == canon(half):
                     return ("tuple", tuple(("tuple", x[1][i:i + 2]) for i in range(0, len(x[1]), 2)))
+        # all(p for x in s) is recorded as not any(not p for x in s): one quantifier, so that the two spellings of a test are one term
+        dual = False
+        if q == "builtins.all" and len(args) == 1 and not kws and args[0][0] == "comp" and args[0][1] in ("gen", "list"):
+            c = args[0]
+            f, args, dual = ("glob", "builtins.any"), ((c[0], c[1], negate_term(c[2])) + tuple(c[3:]),), True
         names = contracts.package_signature(self.pkg, f, self.fn.cls)
         if names is not None:
             args, kws = contracts.canonical_args(names, args, kws)
@@ -464,7 +490,7 @@ class Evaluator:
         st.ordinals[key] = k + 1
         t = ("call", f, args, kws, k)
         self.emit(st, "call", (t,), n)
-        return t
+        return ("unop", "not", t) if dual else t
 
     def as_dict(self, t):
         """dict(<list of pairs>) as a dict term"""
@@ -481,6 +507,39 @@ class Evaluator:
         if t[0] == "call" and t[1] == ("glob", "builtins.zip") and len(t[2]) == 2:
             return ("dict", ((None, t),))
         return None
+
+    def decisions(self, c, st, node):
+        """(state, truth) for every way the condition term c can come out on state st.  and / or / not are taken apart in short-circuit
+        order and every undecided atom forks the path, so that the decisions recorded on a path are always atoms: `if a and b`, `if a: if b`,
+        `if not (not a or not b)`, `flag = a and b; if flag` and an `a or b` guard split into two statements all give the same paths"""
+        c0, neg = _strip_not(c)
+        if c0[0] == "boolop":
+            op, vals = c0[1], c0[2]
+
+            def rec(i, st_):
+                if i == len(vals):
+                    yield st_, op == "And"
+                    return
+                for st2, t in self.decisions(vals[i], st_, node):
+                    if t != (op == "And"):
+                        yield st2, t                    # short circuit
+                    else:
+                        yield from rec(i + 1, st2)
+            for st2, t in rec(0, st):
+                yield st2, ((not t) if neg else t)
+            return
+        v = lookup(st.decided, c0)
+        if v is not None:
+            yield st, ((not v) if neg else v)
+            return
+        order = (False, True) if neg else (True, False)      # the arm on which the un-negated test holds comes first, however it is written
+        for i, val in enumerate(order):
+            st2 = st.fork() if i == 0 else st
+            assume(st2.decided, c0, val)
+            lc, lv = literal(c0, val)
+            st2.conds.append((lc, lv))
+            self.emit(st2, "cond", (lc, lv), node)
+            yield st2, ((not val) if neg else val)
 
     def comp(self, kind, n, st):
         def rec(gens, st_):
@@ -715,18 +774,9 @@ class Evaluator:
             hit = _first_ifexp(s.value, self._is_function_ref(st))
             if hit is not None:
                 c = self.ev(hit.test, st)
-                v = lookup(st.decided, c)
-                arms = [(True, hit.body), (False, hit.orelse)] if v is None else [(v, hit.body if v else hit.orelse)]
-                if len(arms) == 2 and _strip_not(c)[1]:
-                    arms.reverse()
-                for i, (val, arm) in enumerate(arms):
-                    st2 = st.fork() if i < len(arms) - 1 else st
-                    assume(st2.decided, c, val)
-                    lc, lv = literal(c, val)
-                    st2.conds.append((lc, lv))
-                    self.emit(st2, "cond", (lc, lv), s)
+                for st2, val in self.decisions(c, st, s):
                     one = copy.copy(s)
-                    one.value = _replace_node(s.value, hit, arm)
+                    one.value = _replace_node(s.value, hit, hit.body if val else hit.orelse)
                     yield from self.stmt(one, st2)
                 return
         if isinstance(s, ast.Expr):
@@ -798,17 +848,8 @@ class Evaluator:
             yield st, ("raise", v, s.lineno)
         elif isinstance(s, ast.If):
             c = self.ev(s.test, st)
-            v = lookup(st.decided, c)
-            branches = [(True, s.body), (False, s.orelse)] if v is None else [(v, s.body if v else s.orelse)]
-            if len(branches) == 2 and _strip_not(c)[1]:
-                branches.reverse()          # the arm on which the un-negated test holds comes first, however the `if` is written
-            for i, (val, body) in enumerate(branches):
-                st2 = st.fork() if i < len(branches) - 1 else st
-                assume(st2.decided, c, val)
-                lc, lv = literal(c, val)
-                st2.conds.append((lc, lv))
-                self.emit(st2, "cond", (lc, lv), s)
-                yield from self.run(body, st2)
+            for st2, val in self.decisions(c, st, s):
+                yield from self.run(s.body if val else s.orelse, st2)
         elif isinstance(s, ast.Continue):
             yield st, ("continue", NONE, s.lineno)
         elif isinstance(s, ast.Break):
@@ -877,9 +918,20 @@ class Evaluator:
         containers = {nm for nm in grown if nm in pre and nm not in carried and pre[nm][0] in ("list", "dict")}
         for nm in carried:
             st.env[nm] = ("prev", lid, nm, pre[nm])
-        self.emit(st, "loop-enter", (lid, it), s)
-        self.bind(s.target, ("elem", it, lid), st, s)
-        for st3, ex in self.run(s.body, st):
+        if it[0] == "comp" and it[1] in ("list", "gen", "tuple") and not it[5]:
+            # a loop over an unfiltered comprehension is a loop over the inner sequence, its elements transformed (as for comprehensions)
+            inner_elt, it = subst(it[2], {("elem", it[3], it[4]): ("elem", it[3], lid)}), it[3]
+            self.emit(st, "loop-enter", (lid, it), s)
+            self.bind(s.target, inner_elt, st, s)
+        else:
+            self.emit(st, "loop-enter", (lid, it), s)
+            self.bind(s.target, ("elem", it, lid), st, s)
+        # a body that is only `if c: <grow containers>` is the filter of a comprehension: [E for t in S if c]
+        body, filt = s.body, ()
+        while len(body) == 1 and isinstance(body[0], ast.If) and not body[0].orelse and all(_grows_only(b) for b in body[0].body) and not _first_ifexp_any(body[0].test):
+            filt += (self.ev(body[0].test, st),)
+            body = body[0].body
+        for st3, ex in self.run(body, st):
             broke = ex is not None and ex[0] == "break"
             if ex is not None and ex[0] not in ("continue", "break"):
                 yield st3, ex
@@ -895,9 +947,16 @@ class Evaluator:
                 old = pre[nm]
                 if cur is not None and cur[0] == old[0] and cur[1][: len(old[1])] == old[1] and len(cur[1]) > len(old[1]):
                     new = cur[1][len(old[1]):]
-                    if cur[0] == "list":
-                        elt = new[0] if len(new) == 1 else ("tuple", new)
-                        st3.env[nm] = ("list", old[1] + (("star", ("comp", "list", elt, it, lid, ())),))
+                    if cur[0] == "list" and len(new) == 1 and new[0][0] != "star":
+                        # x = []; for t in S: x.append(E)  is the list [E for t in S]
+                        comp = ("comp", "list", new[0], it, lid, filt)
+                        st3.env[nm] = comp if not old[1] else ("list", old[1] + (("star", comp),))
+                    elif cur[0] == "list" and not filt:
+                        st3.env[nm] = ("list", old[1] + (("star", ("comp", "list", ("tuple", new), it, lid, ())),))
+                    elif cur[0] == "dict" and len(new) == 1 and new[0][0] is not None:
+                        # d = {}; for t in S: d[K] = V  is the dict {K: V for t in S}
+                        comp = ("comp", "dict", ("tuple", (new[0][0], new[0][1])), it, lid, filt)
+                        st3.env[nm] = comp if not old[1] else ("dict", old[1] + ((None, comp),))
             self.emit(st3, "loop-exit", (lid,), s)
             if s.orelse and not broke:
                 yield from self.run(s.orelse, st3)
@@ -941,6 +1000,24 @@ class Evaluator:
             self.emit(stp, "exception", (tid,), s)
             for st3, ex3 in finish(stp, ("raise", const("<propagated>"), s.lineno)):
                 yield st3, ex3
+
+
+def _pure_seq(t):
+    """a sequence term whose value is the same whenever it is evaluated: parameters, attributes and range / len / enumerate / zip of those"""
+    from .terms import callee
+    return not any(isinstance(x, tuple) and x and x[0] == "call" and callee(x) not in ("builtins.range", "builtins.len", "builtins.enumerate", "builtins.zip") for x in walk(t))
+
+
+def _grows_only(stmt):
+    """the statement only grows a local container: x.append(E) / x[K] = V"""
+    if isinstance(stmt, ast.Expr) and isinstance(stmt.value, ast.Call) and isinstance(stmt.value.func, ast.Attribute) and isinstance(stmt.value.func.value, ast.Name) \
+            and stmt.value.func.attr == "append" and len(stmt.value.args) == 1 and not stmt.value.keywords:
+        return True
+    return isinstance(stmt, ast.Assign) and len(stmt.targets) == 1 and isinstance(stmt.targets[0], ast.Subscript) and isinstance(stmt.targets[0].value, ast.Name)
+
+
+def _first_ifexp_any(expr):
+    return any(isinstance(x, ast.IfExp) for x in ast.walk(expr))
 
 
 def _first_ifexp(expr, is_function_ref=lambda n: False):
